@@ -355,9 +355,9 @@ def c07g(F, R):
             if kind not in ("ok", "two"):
                 continue
             opt, consumed = eof_optional(toks, s)
-            key = f"{k}|{' '.join(t for t in toks if t != '?') or '-'}"
+            key = f"{k}|{' '.join(t for t in toks if t not in ('?', '$')) or '-'}"
             if opt:
-                R.bad(key, f"{k}: the form `{' '.join(t for t in toks if t != '?')}` is complete, but the decoder looks one token further with `?`: when the file ends there (no trailing newline) the look-ahead fails with UnexpectedEOF and the instruction is dropped without a diagnostic", loc(arm))
+                R.bad(key, f"{k}: the form `{' '.join(t for t in toks if t not in ('?', '$'))}` is complete, but the decoder looks one token further with `?`: when the file ends there (no trailing newline) the look-ahead fails with UnexpectedEOF and the instruction is dropped without a diagnostic", loc(arm))
             else:
                 R.ok(key)
 
@@ -585,12 +585,42 @@ def c15c(F, R):
                 if k0.get("k") == "Path" and k0.get("res") in fresh:
                     key_fresh = True
         uses_path = any(x.get("k") == "Path" and x.get("res") in derived for x in walk(c, pats=False))
+        # a live guard must test the include *ancestry* (the files currently open above the directive), not "read before":
+        # the same file may legitimately be included twice, or reached through two branches of an include tree
+        WHOLE = {"values", "iter", "keys", "contains", "contains_key", "any", "find", "insert", "position", "into_iter", "get"}
+        table_ops = [mc for mc in walk(c, pats=False) if mc.get("k") == "MethodCall" and mc["name"] in ("values", "iter", "keys", "contains", "contains_key", "insert", "into_iter") and ekey(mc["recv"]).startswith("self.")]
+        walks_parents = False
+        for lp in walk(f["hir"]["value"], pats=False):
+            if lp.get("k") == "Loop" and lp.get("src") == "While":
+                # `while let Some(X) = CUR { ..; CUR = self.<parents>.get(&X).. }`
+                iff = peel(lp["body"].get("expr") or {})
+                cnd = iff.get("cond") if iff.get("k") == "If" else None
+                while cnd is not None and cnd.get("k") in ("DropTemps", "Use"):
+                    cnd = cnd["e"]
+                if cnd is not None and cnd.get("k") == "LetExpr" and peel(cnd["init"]).get("k") == "Path":
+                    CUR = peel(cnd["init"]).get("res")
+                    xs = {b_["name"] for b_ in walk(cnd["pat"]) if b_.get("k") == "PBinding"}
+                    for a_ in walk(iff["then"], pats=False):
+                        if a_.get("k") == "Assign" and ekey(a_["l"]) == CUR and \
+                                any(g_.get("k") == "MethodCall" and g_["name"] == "get" and ekey(g_["recv"]).startswith("self.") and any(x.get("k") == "Path" and x.get("res") in xs for x in walk(g_["args"][0], pats=False)) for g_ in walk(a_["r"], pats=False)):
+                            walks_parents = True
+            if lp.get("k") == "Loop":
+                # a cursor that is re-bound from a lookup keyed by itself (`cur = parents.get(&cur)`), starting at the parent id
+                for a_ in walk(lp, pats=False):
+                    if a_.get("k") == "Assign" and any(g_.get("k") == "MethodCall" and g_["name"] in ("get", "get_mut") and ekey(g_["recv"]).startswith("self.") for g_ in walk(a_["r"], pats=False)) \
+                            and any(x.get("k") == "Path" and x.get("res") == ekey(a_["l"]) for x in walk(a_["r"], pats=False)):
+                        walks_parents = True
+        if not key_fresh and uses_path and table_ops and not walks_parents:
+            R.bad(f"{name}|seen-before", f"{name}::import_file answers FileAlreadyRead when the path is anywhere in `{ekey(table_ops[0]['recv'])}` (every file read so far), not when it is one of the files that are currently being included: a file included twice, or reached through two branches of an include tree, is rejected as a cycle and its second copy is not analysed", loc(guard))
+            continue
         if key_fresh:
             R.bad(f"{name}|dead-guard", f"{name}::import_file tests `FileAlreadyRead` with a key freshly produced by Uuid::new_v4() in the same call: the test can never succeed, so self-/cyclic inclusion is unbounded", loc(guard))
         elif not uses_path:
             R.bad(f"{name}|path-independent", f"{name}::import_file's FileAlreadyRead guard does not depend on the imported path", loc(guard))
+        elif not walks_parents:
+            R.bad(f"{name}|not-ancestry", f"{name}::import_file's FileAlreadyRead guard does not walk the chain of including files (parent of the parent ..): a cycle through two or more files is not detected", loc(guard))
         else:
-            R.ok(f"{name}", detail=f"{name}: FileAlreadyRead guard keyed by the path")
+            R.ok(f"{name}", detail=f"{name}: FileAlreadyRead is answered while walking the chain of including files and comparing each with the imported path")
 
 
 @rule("C15", "C15.d.include-relative-to-its-own-file", floor=4)
